@@ -167,7 +167,17 @@ func c08SameRepr(a, b reflect.Type) bool {
 	if a == b {
 		return true
 	}
-	return a.Kind() == reflect.Interface && b.Kind() == reflect.Interface && a.Size() == b.Size() && a.NumMethod() > 0 && b.NumMethod() > 0
+	// two interface types are the same in memory only when they have the same methods: the word next to the data pointer is the
+	// method table of the declared type, and a view reads it as the table of its own
+	if a.Kind() != reflect.Interface || b.Kind() != reflect.Interface || a.NumMethod() != b.NumMethod() || a.NumMethod() == 0 {
+		return false
+	}
+	for i := 0; i < a.NumMethod(); i++ {
+		if a.Method(i).Name != b.Method(i).Name || a.Method(i).Type != b.Method(i).Type {
+			return false
+		}
+	}
+	return true
 }
 
 // shared field correspondence: same name and type, plus Items <-> OrderedItems
